@@ -371,44 +371,58 @@ func c07case(c *Ctx, n int, p uint32, chunk uint32) {
 					for s := hm; ; s = (s - 1) & hm {
 						sub := maskDocs(s, n)
 						where := fmt.Sprintf("%s %s/%s E=%v ReplaceActual(%v)", id, v.name, field, maskDocs(e, n), sub)
-						guard(c.R, where, func() {
-							pl, err := dict.PostingsList([]byte("t"), ex, nil)
-							if err != nil {
-								c.R.Fail("pl-err", "%s: %v", where, err)
-								return
+						exs := []*roaring.Bitmap{ex}
+						if e == 0 {
+							exs = []*roaring.Bitmap{nil, roaring.New()} // no exclusion, said both ways
+						}
+						for xi, exv := range exs {
+							exv := exv
+							fl := c07flags[(int(s)+xi)%len(c07flags)]
+							if !(fl[0] || fl[1] || fl[2]) || s%3 == 0 {
+								fl = [3]bool{true, true, true}
 							}
-							it := pl.Iterator(true, true, true, nil)
-							oi, ok := it.(optIter)
-							if !ok {
-								return
-							}
-							bm := roaring.New()
-							for _, d := range sub {
-								bm.Add(uint32(d))
-							}
-							oi.ReplaceActual(bm)
-							adv := s%2 == 1 && len(sub) > 1
-							for k, d := range sub {
-								var po segment.Posting
-								var err error
-								if adv && k == len(sub)-1 {
-									po, err = it.Advance(uint64(d))
-								} else {
-									po, err = it.Next()
-								}
-								if err != nil || po == nil {
-									c.R.Fail("replace-missing", "%s: step %d: %v %v, want doc %d", where, k, po, err, d)
+							guard(c.R, where, func() {
+								pl, err := dict.PostingsList([]byte("t"), exv, nil)
+								if err != nil {
+									c.R.Fail("pl-err", "%s: %v", where, err)
 									return
 								}
-								if !oracle.CompareHit(c.R, where, po, byDoc[d], true, true) {
+								it := pl.Iterator(fl[0], fl[1], fl[2], nil)
+								oi, ok := it.(optIter)
+								if !ok {
 									return
 								}
-							}
-							if po, err := it.Next(); err != nil || po != nil {
-								c.R.Fail("replace-extra", "%s: after the subset: %v %v", where, po, err)
-							}
-							c.R.Inc("c07_replace_actual_subsets", 1)
-						})
+								bm := roaring.New()
+								for _, d := range sub {
+									bm.Add(uint32(d))
+								}
+								oi.ReplaceActual(bm)
+								adv := s%2 == 1 && len(sub) > 1
+								for k, d := range sub {
+									var po segment.Posting
+									var err error
+									if adv && k == len(sub)-1 {
+										po, err = it.Advance(uint64(d))
+									} else {
+										po, err = it.Next()
+									}
+									if err != nil || po == nil {
+										c.R.Fail("replace-missing", "%s: step %d: %v %v, want doc %d", where, k, po, err, d)
+										return
+									}
+									if !oracle.CompareHit(c.R, where, po, byDoc[d], fl[0] || fl[1] || fl[2], fl[2]) {
+										return
+									}
+								}
+								if po, err := it.Next(); err != nil || po != nil {
+									c.R.Fail("replace-extra", "%s: after the subset: %v %v", where, po, err)
+								}
+								c.R.Inc("c07_replace_actual_subsets", 1)
+								if exv == nil {
+									c.R.Inc("c07_replace_actual_without_exclusion", 1)
+								}
+							})
+						}
 						if s == 0 {
 							break
 						}
@@ -452,7 +466,7 @@ func c07random(c *Ctx) {
 			md := []uint32{1025, 1026, 1026, 3, 1024}[rng.Intn(5)]
 			if cl == "tall" {
 				k := model.EdgeCards[rng.Intn(len(model.EdgeCards))]
-				model.ForceCardinality(b, rng, b.Docs[0].Fields[0].Name, "edge", k)
+				model.ForceCardinality(b, rng, firstFieldName(b), "edge", k)
 			}
 			bs = append(bs, b)
 			modes = append(modes, md)
